@@ -1743,39 +1743,68 @@ class Engine:
 
     # calls -----------------------------------------------------------------
     def _all_any(self, fr, e, s):
-        """all(f(x) for x in <known-length tuple>) / any(...): unrolled"""
+        """all / any / sum over a generator expression or list comprehension whose iterables have a statically known
+        length (tuples, constant ranges, enumerate / zip / slices of those): unrolled, with several `for` clauses and
+        `if` filters (a filter whose outcome is not decided by the facts splits the state)"""
         if not (isinstance(e.func, ast.Name) and e.func.id in ("all", "any", "sum") and len(e.args) == 1 and not e.keywords
-                and isinstance(e.args[0], (ast.GeneratorExp, ast.ListComp)) and len(e.args[0].generators) == 1
-                and not e.args[0].generators[0].ifs and e.func.id not in s.env):
+                and isinstance(e.args[0], (ast.GeneratorExp, ast.ListComp)) and e.func.id not in s.env):
             return None
-        gen = e.args[0].generators[0]
+        comp = e.args[0]
+        kind = e.func.id
+
+        class _NotConcrete(Exception):
+            pass
+
+        def unroll(level, st, acc):
+            if level == len(comp.generators):
+                return [(s2, acc + [v if kind == "sum" else self.truth(v)]) for s2, v in self.eval(fr, comp.elt, st)]
+            gen = comp.generators[level]
+            results = []
+            for s1, it in self.eval(fr, gen.iter, st):
+                seq = self._concrete_seq(it)
+                if seq is None or len(seq) > 8:
+                    raise _NotConcrete()
+                cur = [(s1, acc)]
+                for item in seq:
+                    nxt = []
+                    for s2, a2 in cur:
+                        for s3 in self.assign(fr, gen.target, item, s2):
+                            passed, skipped = [s3], []
+                            for cond in gen.ifs:
+                                np_ = []
+                                for s4 in passed:
+                                    for s5, v in self.eval(fr, cond, s4):
+                                        f = self.truth(v)
+                                        np_.extend(assume(f, s5))
+                                        skipped.extend(assume(f_not(f), s5))
+                                passed = np_
+                            for s4 in passed:
+                                nxt.extend(unroll(level + 1, s4, a2))
+                            nxt.extend((s4, a2) for s4 in skipped)
+                    cur = nxt
+                    if len(cur) > 64:
+                        raise _NotConcrete()
+                results.extend(cur)
+            return results
+        try:
+            accs = unroll(0, s, [])
+        except _NotConcrete:
+            return None
         results = []
-        for s1, it in self.eval(fr, gen.iter, s):
-            seq = self._concrete_seq(it)
-            if seq is None or len(seq) > 8:
-                return None
-            accs = [(s1, [])]
-            for item in seq:
-                nxt = []
-                for s2, fs in accs:
-                    for s3 in self.assign(fr, gen.target, item, s2):
-                        for s4, v in self.eval(fr, e.args[0].elt, s3):
-                            nxt.append((s4, fs + [v if e.func.id == "sum" else self.truth(v)]))
-                accs = nxt
-            for s2, fs in accs:
-                if e.func.id == "sum":
-                    tot = Lin.const(0)
-                    okn = True
-                    for v in fs:
-                        nv = self.num(v, s2)
-                        if nv is None:
-                            okn = False
-                            break
-                        tot = tot + nv.lin
-                    results.append((s2, Num(tot) if okn else Unk(self.fresh("sum"))))
-                    continue
-                f = f_and(fs) if e.func.id == "all" else f_or(fs)
-                results.append((s2, Con(f) if isinstance(f, bool) else Bool(f)))
+        for s2, fs in accs:
+            if kind == "sum":
+                tot = Lin.const(0)
+                okn = True
+                for v in fs:
+                    nv = self.num(v, s2)
+                    if nv is None:
+                        okn = False
+                        break
+                    tot = tot + nv.lin
+                results.append((s2, Num(tot) if okn else Unk(self.fresh("sum"))))
+                continue
+            f = f_and(fs) if kind == "all" else f_or(fs)
+            results.append((s2, Con(f) if isinstance(f, bool) else Bool(f)))
         return results
 
     def e_Call(self, fr, e, s):
@@ -2212,7 +2241,18 @@ class Engine:
                 and isinstance(args[0].target, (tuple, list)) and len(args[0].target) <= MAX_UNROLL:
             args = [Tup([self.wrap(x) for x in args[0].target])] + list(args[1:])
         if short == "enumerate" and args and isinstance(args[0], Tup):
-            return [(s, Tup([Tup([Num(Lin.const(i)), x]) for i, x in enumerate(args[0].items)]))]
+            start = 0
+            if len(args) > 1 or "start" in kwargs:
+                sv = args[1] if len(args) > 1 else kwargs["start"]
+                start = int(sv.lin.k) if isinstance(sv, Num) and sv.lin.is_const() else None
+            if start is not None:
+                return [(s, Tup([Tup([Num(Lin.const(i + start)), x]) for i, x in enumerate(args[0].items)]))]
+        if short == "zip" and args and all(isinstance(a, Tup) for a in args) and not kwargs:
+            return [(s, Tup([Tup(list(xs)) for xs in zip(*[a.items for a in args])]))]
+        if short == "itertools.combinations" and len(args) == 2 and isinstance(args[0], Tup) and isinstance(args[1], Num) \
+                and args[1].lin.is_const() and len(args[0].items) <= 6:
+            import itertools as _it
+            return [(s, Tup([Tup(list(c)) for c in _it.combinations(args[0].items, int(args[1].lin.k))]))]
         if short == "reversed" and args and isinstance(args[0], Tup):
             return [(s, Tup(tuple(reversed(args[0].items))))]
         if short in ("tuple", "list") and args and isinstance(args[0], Tup):
